@@ -288,6 +288,14 @@ pub struct Cfg {
     pub callback: u8,
     /// use the reduced operation set (policy-relevant mutators only)
     pub lean_ops: bool,
+    /// history applied before the exploration starts (the root state is the state it reaches): "start
+    /// from non-initial states" — e.g. a pre-filled cache of a capacity far too large for a closure
+    #[serde(default)]
+    pub prefill: Vec<Op>,
+    /// relative alphabet: operations address keys by their position (ends of each list, a key new to
+    /// the cache) instead of by name, resolved against the snapshot of each state
+    #[serde(default)]
+    pub relative: bool,
     /// which builder path constructs the cache: 0 = sizes first, hashers last; 1 = hashers first
     /// (from `Default`), sizes/ratios last — so that every setter is exercised after every other
     #[serde(default)]
@@ -312,6 +320,8 @@ impl Cfg {
             with_clone: false,
             callback: 0,
             lean_ops: false,
+            prefill: vec![],
+            relative: false,
             builder_path: 0,
         }
     }
@@ -335,6 +345,12 @@ impl Cfg {
         }
         if self.lean_ops {
             s += "/lean";
+        }
+        if !self.prefill.is_empty() {
+            s += &format!("/prefill={}ops", self.prefill.len());
+        }
+        if self.relative {
+            s += "/relative-alphabet";
         }
         if self.builder_path != 0 {
             s += &format!("/builder_path={}", self.builder_path);
@@ -434,5 +450,58 @@ pub fn observers(cfg: &Cfg) -> Vec<Op> {
         }
         Kind::Wtlfu => v.push(Op::ListLens),
     }
+    v
+}
+
+/// Relative alphabet resolved against a snapshot: concrete operations on the keys at the ends of
+/// every list and on a key that is new to the cache.
+pub fn relative_ops(cfg: &Cfg, snap: &Snap) -> Vec<Op> {
+    let mut v: Vec<Op> = vec![];
+    let retained: Vec<u8> = snap.lists.iter().flatten().map(|e| e.0).collect();
+    let fresh = (0u8..96).find(|k| !retained.contains(k));
+    if let Some(f) = fresh {
+        v.push(Op::Put(f, 0));
+        if cfg.kind == Kind::Slru {
+            v.push(Op::PutProtected(f, 0));
+        }
+    }
+    let resident: &[usize] = match cfg.kind {
+        Kind::Raw => &[0],
+        Kind::Slru | Kind::TwoQ | Kind::Arc => &[0, 1],
+        Kind::Wtlfu => &[0, 1, 2],
+    };
+    for (li, l) in snap.lists.iter().enumerate() {
+        if l.is_empty() {
+            continue;
+        }
+        let ends = [l[l.len() - 1].0, l[0].0];
+        for (ei, k) in ends.iter().enumerate() {
+            if ei == 1 && l.len() == 1 {
+                continue;
+            }
+            v.push(Op::Put(*k, 0));
+            if resident.contains(&li) {
+                v.push(Op::Get(*k));
+                if ei == 0 {
+                    v.push(Op::Remove(*k));
+                }
+                if cfg.kind == Kind::Slru && li == 0 && ei == 0 {
+                    v.push(Op::PutProtected(*k, 0));
+                }
+            }
+        }
+    }
+    if cfg.kind == Kind::Raw {
+        v.push(Op::RemoveLru);
+        v.push(Op::GetLru);
+    }
+    if cfg.kind == Kind::Wtlfu {
+        // a miss still records an access
+        if let Some(f) = fresh {
+            v.push(Op::Get(f));
+        }
+    }
+    v.sort();
+    v.dedup();
     v
 }
